@@ -265,6 +265,16 @@ def run_overlay(P, rep, rule="R-OVERLAY"):
                     n_chars += 1
                 elif last == "len" and ("core::str::" in cf["name"] or "String" in cf["name"] or "KString" in cf["name"] or "kstring" in cf["name"] or "str>::len" in cf["name"]):
                     probs.append("the computed `size` of a string is a byte length (`%s`), not a character count: it is wrong for every non-ASCII string" % cf["name"].split("<")[0])
+    # the named steps are chosen by the index's *text*: value equality of scalars (where `true` equals every scalar and
+    # 1 equals 1.0) is not the relation that selects first/last/size
+    for g in bodies:
+        for bi, t in P.calls(g):
+            f = t.get("f")
+            if f and f["id"].rsplit("::", 1)[1] in ("eq", "ne") and "self_ty" in f:
+                st_ = P.tstr(g.crate, f["self_ty"])
+                if "liquid_core::model::" in st_:
+                    probs.append("a lookup step is compared with `%s == ..` (value equality of the model: `true` equals any scalar) instead of by its text"
+                                 % st_.rsplit("::", 1)[-1])
     if not n_chars:
         probs.append("no computed `size` in augmented_get derives from chars().count(): the size of a string must be its length in characters")
     if probs:
